@@ -36,6 +36,20 @@ theorem C10_accept_untouched {E : Type} (files : List (String × String)) (fs : 
   | nil => rfl
   | cons x xs ih => simp [List.filter, ih]
 
+/-! ## the glue the verdict travels through (`result.py`, `maybe.py`: FcpModel/Glue.lean) -/
+
+/-- a rejection stays a rejection, with its payload, through every `Ok`-side combinator between
+the check that produced it and the generate command (`map`, `and_then`, `attempt` inside `catch`):
+the gate cannot be opened on the way, whatever the payload (0, "" and None are falsy in Python) -/
+theorem C10_rejection_travels (e : Glue.Payload) (ops : List Glue.Op) (h : ∀ o ∈ ops, Glue.okSide o = true) :
+    Glue.run (.error e) ops = .error e :=
+  Glue.run_err_absorbs e ops h
+
+/-- and `attempt` inside `catch` hands a verdict on unchanged -/
+theorem C10_catch_attempt (r : Glue.Res) : Glue.step r (.catchAttempt 0) = r := Glue.catch_attempt r
+
+example : Glue.run (.error 0) [.map 5, .andThen 0 1, .catchAttempt 2] = .error 0 := by decide
+
 /-! non-vacuity (`String.endsWith` does not reduce in the kernel, so the clearing rule is
 given explicitly here) -/
 example : (generateCmd (E := String) (.ok ()) { deletes := fun _ => ["a.h", "b.c"], files := [("a.h", "new")] }
